@@ -1,12 +1,12 @@
 ------------------------------ MODULE MC_C03 ------------------------------
 (* C03: symmetric monoidal category laws up to isomorphism.                 *)
 EXTENDS Domains, Emit
-CONSTANTS N3, N2, N4, E, A, I, NL, EL, TL, TNL
+CONSTANTS N3, N2, N4, E, A, I, NL, EL, TL, TNL, NL4
 VARIABLES stage, kind, r
 vars == <<stage, kind, r>>
 D3 == Diagrams(N3, E, A, I, NL, EL)
 D2 == Diagrams(N2, E, A, I, NL, EL)
-D4 == Diagrams(N4, E, A, I, NL, EL)
+D4 == Diagrams(N4, E, A, I, NL4, EL)
 Types == SeqsUpTo(TNL, TL)
 P == <<"C03", "C05">>
 Init == stage = 0 /\ kind = "none" /\ r = <<>>
